@@ -47,7 +47,10 @@ type pintRun struct {
 	Leak     string
 	Live     bool
 	Reqs     int
+	Applied  map[string]int // behaviours applied to connection attempts (simServer.Modes)
 }
+
+var faultMu sync.Mutex
 
 type simServer struct {
 	Host string
@@ -55,7 +58,11 @@ type simServer struct {
 	// NoFlagsAPI: answers 404 on /api/v1/status/flags like Thanos or Mimir do - a static
 	// property of the server, its answers stay a pure function of the request
 	NoFlagsAPI bool
+	// Modes: behaviours cycled over the connection attempts this host receives (empty = healthy)
+	Modes []string
 }
+
+type connMode struct{ mode string }
 
 type simEnv struct {
 	Files   []simFile
@@ -99,6 +106,7 @@ func runPint(t *testing.T, env simEnv, record bool) pintRun {
 	defer runMu.Unlock()
 	var res pintRun
 	res.Live = true
+	res.Applied = map[string]int{}
 	dir, err := os.MkdirTemp("", "verif-pint-")
 	if err != nil {
 		t.Fatal(err)
@@ -164,7 +172,30 @@ func runPint(t *testing.T, env simEnv, record bool) pintRun {
 					return simprom.Fault{Mode: simprom.ModeOK}
 				}
 			}
-			srv.Start(nw, nil)
+			if len(sv.Modes) > 0 {
+				modes := sv.Modes
+				srv.FaultFn = func(req *simprom.Request) simprom.Fault {
+					if tag, ok := req.ConnTag.(connMode); ok {
+						return simprom.Fault{Mode: tag.mode}
+					}
+					return simprom.Fault{Mode: simprom.ModeOK}
+				}
+				srv.StartCtx(nw, nil, func(k int, _ any) (simnet.DialAction, any) {
+					mode := modes[k%len(modes)]
+					faultMu.Lock()
+					res.Applied[mode]++
+					faultMu.Unlock()
+					switch mode {
+					case simprom.ModeRefused:
+						return simnet.DialRefuse, nil
+					case simprom.ModeDialBlackHole:
+						return simnet.DialBlackHole, nil
+					}
+					return simnet.DialOK, connMode{mode: mode}
+				})
+			} else {
+				srv.Start(nw, nil)
+			}
 			servers = append(servers, srv)
 		}
 		s.Start()
